@@ -286,6 +286,25 @@ impl Slot {
     }
 }
 
+thread_local! {
+    /// OEM code page used when a short name has to be shown as text (set per run from the session's converter)
+    static OEM_CP437: std::cell::Cell<bool> = const { std::cell::Cell::new(false) };
+}
+
+pub fn set_oem(cp437: bool) {
+    OEM_CP437.with(|c| c.set(cp437));
+}
+
+pub fn oem_dec(b: u8) -> char {
+    if b < 0x80 {
+        b as char
+    } else if OEM_CP437.with(|c| c.get()) {
+        crate::types::CP437_HIGH[usize::from(b - 0x80)]
+    } else {
+        '\u{FFFD}'
+    }
+}
+
 pub fn sfn_checksum(name: &[u8]) -> u8 {
     let mut s: u8 = 0;
     for &b in &name[..11] {
@@ -798,7 +817,7 @@ pub fn parse_with(img: &Store, g: Geo) -> Result<Parsed, String> {
                 continue;
             }
             let mut path = dpath.clone();
-            path.push(e.name_units(&|_| '\u{FFFD}'));
+            path.push(e.name_units(&oem_dec));
             let mut ch = vec![];
             if e.first_cluster != 0 {
                 let (c, f) = chain(img, &g, e.first_cluster, g.n_clusters);
